@@ -38,6 +38,7 @@ type candidate struct {
 	Dir      string
 	Key      string
 	Observed []obsJSON
+	Sched    []schedEv
 }
 
 type inputJSON struct {
@@ -380,7 +381,7 @@ func (p *goPanic) describe() string {
 }
 
 func (ex *Exec) reportViolation(kind, site, msg string) {
-	v := &violation{Kind: kind, Site: site, Msg: msg, PC: append([]*Term{}, ex.pc...), Inputs: append([]inputRec{}, ex.inputs...), Classes: ex.classes, Choices: append([]int64{}, ex.decisions...)}
+	v := &violation{Kind: kind, Site: site, Msg: msg, PC: append([]*Term{}, ex.pc...), Inputs: append([]inputRec{}, ex.inputs...), Classes: ex.classes, Choices: append([]int64{}, ex.decisions...), Sched: append([]schedEv{}, ex.schedTrace...)}
 	ex.viol = v
 	ex.end("violation", site)
 }
@@ -469,7 +470,7 @@ func (w *Worker) handleViolation(ex *Exec) {
 			w.noteUnknown("violation model")
 		}
 		if r == Sat {
-			c := &candidate{Harness: sh.harness, Kind: v.Kind, Site: v.Site, Msg: v.Msg, Inputs: renderInputs(v.Inputs, model), Choices: v.Choices, Key: key}
+			c := &candidate{Harness: sh.harness, Kind: v.Kind, Site: v.Site, Msg: v.Msg, Inputs: renderInputs(v.Inputs, model), Choices: v.Choices, Key: key, Sched: v.Sched}
 			sh.mu.Lock()
 			sh.cands = append(sh.cands, c)
 			sh.candKeys[key]++
@@ -498,7 +499,7 @@ func (w *Worker) handleViolation(ex *Exec) {
 		r, model := w.solver.CheckModel(spc, sc, syms)
 		ex.completeModel(model, syms)
 		if r == Sat {
-			cd := &candidate{Harness: sh.harness, Kind: v.Kind, Site: v.Site, Msg: v.Msg, Known: k, Inputs: renderInputs(v.Inputs, model), Choices: v.Choices}
+			cd := &candidate{Harness: sh.harness, Kind: v.Kind, Site: v.Site, Msg: v.Msg, Known: k, Inputs: renderInputs(v.Inputs, model), Choices: v.Choices, Sched: v.Sched}
 			sh.mu.Lock()
 			if _, seen := sh.knownSeen[kk]; !seen {
 				sh.knownSeen[kk] = cd
@@ -536,7 +537,7 @@ func (w *Worker) makeWitness(ex *Exec) {
 		return
 	}
 	ex.completeModel(model, syms)
-	c := &candidate{Harness: sh.harness, Kind: "witness", Inputs: renderInputs(ex.inputs, model), Choices: ex.decisions}
+	c := &candidate{Harness: sh.harness, Kind: "witness", Inputs: renderInputs(ex.inputs, model), Choices: ex.decisions, Sched: append([]schedEv{}, ex.schedTrace...)}
 	memo := map[*Term]uint64{}
 	for _, o := range ex.observe {
 		b := make([]byte, 0, len(o.Terms))
